@@ -156,15 +156,16 @@ structure SameLedger (s s' : State) : Prop where
   started : s'.started = s.started
   nextQid : s'.nextQid = s.nextQid
   successLog : s'.successLog = s.successLog
+  sendResults : s'.sendResults = s.sendResults
 
-theorem SameLedger.rfl' (s : State) : SameLedger s s := ⟨rfl, rfl, rfl, rfl⟩
+theorem SameLedger.rfl' (s : State) : SameLedger s s := ⟨rfl, rfl, rfl, rfl, rfl⟩
 
 theorem SameLedger.trans {a b c : State} (h1 : SameLedger a b) (h2 : SameLedger b c) : SameLedger a c :=
   ⟨h2.events.trans h1.events, h2.started.trans h1.started, h2.nextQid.trans h1.nextQid,
-   h2.successLog.trans h1.successLog⟩
+   h2.successLog.trans h1.successLog, h2.sendResults.trans h1.sendResults⟩
 
 theorem disconnectPeer_same (s : State) (p : Peer) (query : Option Qid) : SameLedger s (disconnectPeer s p query) :=
-  ⟨rfl, rfl, rfl, rfl⟩
+  ⟨rfl, rfl, rfl, rfl, rfl⟩
 
 theorem drainDials_same (p : Peer) (s : State) (acts : List PAction) (outs : List Bool) (s0 : State)
     (h0 : SameLedger s0 s) : SameLedger s0 (drainDials p s acts outs) := by
@@ -173,8 +174,8 @@ theorem drainDials_same (p : Peer) (s : State) (acts : List PAction) (outs : Lis
   | cons a as ih =>
     unfold drainDials
     split
-    · exact ih _ _ (h0.trans ⟨rfl, rfl, rfl, rfl⟩)
-    · exact ih _ _ (h0.trans ⟨rfl, rfl, rfl, rfl⟩)
+    · exact ih _ _ (h0.trans ⟨rfl, rfl, rfl, rfl, rfl⟩)
+    · exact ih _ _ (h0.trans ⟨rfl, rfl, rfl, rfl, rfl⟩)
 
 theorem established_same (s : State) (p : Peer) (outs : List Bool) : SameLedger s (established s p outs) := by
   unfold established onConnectionEstablished
@@ -182,18 +183,18 @@ theorem established_same (s : State) (p : Peer) (outs : List Bool) : SameLedger 
   · exact .rfl' _
   · simp only []
     split
-    · exact ⟨rfl, rfl, rfl, rfl⟩
+    · exact ⟨rfl, rfl, rfl, rfl, rfl⟩
     · split
-      · exact ⟨rfl, rfl, rfl, rfl⟩
-      · exact drainDials_same _ _ _ _ _ ⟨rfl, rfl, rfl, rfl⟩
+      · exact ⟨rfl, rfl, rfl, rfl, rfl⟩
+      · exact drainDials_same _ _ _ _ _ ⟨rfl, rfl, rfl, rfl, rfl⟩
 
 theorem closed_same (s : State) (p : Peer) : SameLedger s (closed s p) := by
   unfold closed
   split
-  · exact ⟨rfl, rfl, rfl, rfl⟩
+  · exact ⟨rfl, rfl, rfl, rfl, rfl⟩
   · exact .rfl' _
 
-theorem dialFailure_same (s : State) (p : Peer) : SameLedger s (dialFailure s p) := ⟨rfl, rfl, rfl, rfl⟩
+theorem dialFailure_same (s : State) (p : Peer) : SameLedger s (dialFailure s p) := ⟨rfl, rfl, rfl, rfl, rfl⟩
 
 theorem subOpenFailure_same (s : State) (sid : Sid) : SameLedger s (subOpenFailure s sid) := by
   unfold subOpenFailure
@@ -201,10 +202,10 @@ theorem subOpenFailure_same (s : State) (sid : Sid) : SameLedger s (subOpenFailu
   · exact .rfl' _
   · simp only []
     split
-    · exact ⟨rfl, rfl, rfl, rfl⟩
+    · exact ⟨rfl, rfl, rfl, rfl, rfl⟩
     · split
-      · exact ⟨rfl, rfl, rfl, rfl⟩
-      · exact ⟨rfl, rfl, rfl, rfl⟩
+      · exact ⟨rfl, rfl, rfl, rfl, rfl⟩
+      · exact ⟨rfl, rfl, rfl, rfl, rfl⟩
 
 theorem subOpened_same (s : State) (sid : Sid) : SameLedger s (subOpened s sid).1 := by
   unfold subOpened
@@ -213,21 +214,21 @@ theorem subOpened_same (s : State) (sid : Sid) : SameLedger s (subOpened s sid).
   · simp only []
     split
     · split
-      · exact ⟨rfl, rfl, rfl, rfl⟩
+      · exact ⟨rfl, rfl, rfl, rfl, rfl⟩
       · split
-        · split <;> exact ⟨rfl, rfl, rfl, rfl⟩
-        · exact ⟨rfl, rfl, rfl, rfl⟩
-        · exact ⟨rfl, rfl, rfl, rfl⟩
-    · exact ⟨rfl, rfl, rfl, rfl⟩
+        · split <;> exact ⟨rfl, rfl, rfl, rfl, rfl⟩
+        · exact ⟨rfl, rfl, rfl, rfl, rfl⟩
+        · exact ⟨rfl, rfl, rfl, rfl, rfl⟩
+    · exact ⟨rfl, rfl, rfl, rfl, rfl⟩
 
 theorem osd_same (s : State) (p : Peer) (a : PAction) (o : OsdIn) : SameLedger s (osd s p a o).1 := by
   unfold osd openSub
   split
-  · exact ⟨rfl, rfl, rfl, rfl⟩
+  · exact ⟨rfl, rfl, rfl, rfl, rfl⟩
   · split
-    · exact ⟨rfl, rfl, rfl, rfl⟩
-    · split <;> exact ⟨rfl, rfl, rfl, rfl⟩
-    · exact ⟨rfl, rfl, rfl, rfl⟩
+    · exact ⟨rfl, rfl, rfl, rfl, rfl⟩
+    · split <;> exact ⟨rfl, rfl, rfl, rfl, rfl⟩
+    · exact ⟨rfl, rfl, rfl, rfl, rfl⟩
 
 theorem fanOut_same (k : AKind) (q : Qid) (s : State) (ps : List Peer) (outs : List OsdIn) (s0 : State)
     (h0 : SameLedger s0 s) : SameLedger s0 (fanOut k q s ps outs).1 := by
@@ -235,12 +236,14 @@ theorem fanOut_same (k : AKind) (q : Qid) (s : State) (ps : List Peer) (outs : L
   | nil => exact h0
   | cons p ps ih => simp only [fanOut]; exact ih _ _ (h0.trans (osd_same ..))
 
-theorem execResult_same (s : State) (f : Fut) (r : Res) : SameLedger s (execResult s f r) := by
+theorem execResult_same (s : State) (f : Fut) (r : Res) :
+    (execResult s f r).events = s.events ∧ (execResult s f r).started = s.started ∧
+    (execResult s f r).nextQid = s.nextQid ∧ (execResult s f r).successLog = s.successLog := by
   unfold execResult
   split
   · simp only []
     cases r <;> exact ⟨rfl, rfl, rfl, rfl⟩
-  · exact .rfl' _
+  · exact ⟨rfl, rfl, rfl, rfl⟩
 
 /-- The engine after an executor result: shrunk, possibly after one `register_send_success`. -/
 theorem execResult_engine (s : State) (f : Fut) (r : Res) :
@@ -292,6 +295,17 @@ theorem Ledger.of_same {s s' : State} (h : Ledger s) (hs : SameLedger s s') (hi 
   · rw [hs.events, hs.nextQid]; exact h4
   · rw [hs.events, hi]; exact h5
   · rw [hs.events, hi, hs.started]; exact h6
+
+theorem Ledger.of_same' {s s' : State} (h : Ledger s) (he : s'.events = s.events) (hst : s'.started = s.started)
+    (hn : s'.nextQid = s.nextQid) (hi : ids s'.engine = ids s.engine) : Ledger s' := by
+  obtain ⟨h1, h2, h3, h4, h5, h6⟩ := h
+  constructor
+  · rw [hi]; exact h1
+  · rw [hi, hn]; exact h2
+  · rw [he]; exact h3
+  · rw [he, hn]; exact h4
+  · rw [he, hi]; exact h5
+  · rw [he, hi, hst]; exact h6
 
 theorem ids_removeQ (e : Engine) (q : Qid) : ids (removeQ e q) = (ids e).filter (· != q) := by
   unfold ids removeQ
@@ -345,7 +359,7 @@ theorem Ledger.finish {s : State} (h : Ledger s) {q : Qid} (hq : q ∈ ids s.eng
 
 theorem Ledger.finish' {s : State} (h : Ledger s) {q : Qid} (hq : q ∈ ids s.engine) (ok : Bool) :
     Ledger (emit { s with engine := removeQ s.engine q } q ok) :=
-  h.finish hq ok { s with engine := removeQ s.engine q } rfl ⟨rfl, rfl, rfl, rfl⟩
+  h.finish hq ok { s with engine := removeQ s.engine q } rfl ⟨rfl, rfl, rfl, rfl, rfl⟩
 
 theorem Ledger.startLookup {s : State} (h : Ledger s) (kind : QKind) (key : Nat) (quorum : Quorum) :
     Ledger (startLookup s kind key quorum) := by
@@ -391,7 +405,7 @@ theorem Ledger.setSuccessLog {s : State} (h : Ledger s) (l : List SuccessRec) : 
   ⟨h.idsNodup, h.idsLt, h.evNodup, h.evLt, h.disjoint, h.accounted⟩
 
 theorem Ledger.setStored {s : State} (h : Ledger s) (st : List Nat) : Ledger { s with stored := st } :=
-  h.of_same ⟨rfl, rfl, rfl, rfl⟩ rfl
+  h.of_same ⟨rfl, rfl, rfl, rfl, rfl⟩ rfl
 
 theorem Ledger.immediate {s : State} (h : Ledger s) :
     Ledger { s with started := s.started ++ [s.nextQid], nextQid := s.nextQid + 1
@@ -450,7 +464,7 @@ theorem startTracking_ids (r : State × List Peer) (q key isPut peers quorum) :
 
 theorem startTracking_same (r : State × List Peer) (q key isPut peers quorum) (s0 : State)
     (h0 : SameLedger s0 r.1) : SameLedger s0 (startTracking r q key isPut peers quorum) :=
-  h0.trans ⟨rfl, rfl, rfl, rfl⟩
+  h0.trans ⟨rfl, rfl, rfl, rfl, rfl⟩
 
 /-- The fan-out: the lookup is replaced by a tracker with the same id, no event. -/
 theorem Ledger.refan {s s' : State} (h : Ledger s) {q : Qid} (hq : q ∈ ids s.engine) (hs : SameLedger s s')
@@ -496,7 +510,7 @@ theorem sendMessage_same (s : State) (q : Qid) (p : Peer) (o : OsdIn) (s0 : Stat
   unfold sendMessage
   split
   · exact h0.trans (osd_same ..)
-  · exact h0.trans ((osd_same s p ⟨.findNode, q⟩ o).trans ⟨rfl, rfl, rfl, rfl⟩)
+  · exact h0.trans ((osd_same s p ⟨.findNode, q⟩ o).trans ⟨rfl, rfl, rfl, rfl, rfl⟩)
 
 theorem Ledger.engineStep {s s' : State} (h : Ledger s) {act : EAct} {outs : List OsdIn}
     (hstep : engineStep s act outs = some s') : Ledger s' := by
@@ -510,7 +524,7 @@ theorem Ledger.engineStep {s s' : State} (h : Ledger s) {act : EAct} {outs : Lis
       · exact absurd hstep (by simp)
       · injection hstep with hstep
         subst hstep
-        refine h.of_same (sendMessage_same _ _ _ _ _ ⟨rfl, rfl, rfl, rfl⟩) ?_
+        refine h.of_same (sendMessage_same _ _ _ _ _ ⟨rfl, rfl, rfl, rfl, rfl⟩) ?_
         rw [(sendMessage_shrinks _ _ _ _ _ (.refl _)).ids]
         simp
     · exact absurd hstep (by simp)
@@ -536,7 +550,7 @@ theorem Ledger.engineStep {s s' : State} (h : Ledger s) {act : EAct} {outs : Lis
           · injection hstep with hstep
             subst hstep
             refine h.refan hq ?_ ?_
-            · exact startTracking_same _ _ _ _ _ _ _ (fanOut_same _ _ _ _ _ _ ⟨rfl, rfl, rfl, rfl⟩)
+            · exact startTracking_same _ _ _ _ _ _ _ (fanOut_same _ _ _ _ _ _ ⟨rfl, rfl, rfl, rfl, rfl⟩)
             · rw [startTracking_ids, fanOut_engine, ids_removeQ]
     · exact absurd hstep (by simp)
   | partialResult q =>
@@ -588,11 +602,263 @@ theorem Ledger.step {s s' : State} (h : Ledger s) {l : Label} (hstep : step s l 
     exact h.of_same (subOpenFailure_same ..) (subOpenFailure_shrinks ..).ids
   | result f r =>
     injection hstep with hstep; subst hstep
-    exact h.of_same (execResult_same ..) (execResult_ids ..)
+    have hs := execResult_same s f r
+    exact h.of_same' hs.1 hs.2.1 hs.2.2.1 (execResult_ids ..)
 
 theorem Ledger.reachable {s : State} (h : Reachable s) : Ledger s := by
   induction h with
   | init => exact Ledger.init
+  | step l _ hstep ih => exact ih.step hstep
+
+/-! ## What a tracker counted is backed by send-success results -/
+
+abbrev SendLog := List (Qid × Peer × FKind)
+
+def TrackerOk (sr : SendLog) (q : Qid) (t : Tracker) : Prop :=
+  t.counted.length = t.nSucceeded ∧ t.peersToSucceed = clampQuorum t.quorum t.nTargets ∧ t.counted.Nodup ∧
+  (∀ p ∈ t.counted, p ∉ t.pending) ∧ (∀ p ∈ t.counted, ∃ k, (q, p, k) ∈ sr)
+
+def StOk (sr : SendLog) (q : Qid) : QState → Prop
+  | .tracker _ t => TrackerOk sr q t
+  | .lookup .. => True
+
+def EngOk (sr : SendLog) (e : Engine) : Prop := ∀ x ∈ e, StOk sr x.id x.st
+
+def LogOk (sr : SendLog) (l : List SuccessRec) : Prop :=
+  ∀ r ∈ l, clampQuorum r.quorum r.nTargets ≤ r.counted.length ∧ r.counted.Nodup ∧
+    ∀ p ∈ r.counted, ∃ k, (r.q, p, k) ∈ sr
+
+structure QuorumInv (s : State) : Prop where
+  eng : EngOk s.sendResults s.engine
+  log : LogOk s.sendResults s.successLog
+
+theorem StOk.mono {sr sr' : SendLog} (h : ∀ x ∈ sr, x ∈ sr') {q : Qid} {st : QState} (hs : StOk sr q st) :
+    StOk sr' q st := by
+  cases st with
+  | lookup => trivial
+  | tracker b t =>
+    obtain ⟨h1, h2, h3, h4, h5⟩ := hs
+    exact ⟨h1, h2, h3, h4, fun p hp => let ⟨k, hk⟩ := h5 p hp; ⟨k, h _ hk⟩⟩
+
+theorem StOk.respDone {sr : SendLog} {q : Qid} {st : QState} (p : Peer) (hs : StOk sr q st) :
+    StOk sr q (st.respDone p) := by
+  cases st with
+  | lookup => trivial
+  | tracker b t => exact hs
+
+theorem StOk.sendFail {sr : SendLog} {q : Qid} {st : QState} (p : Peer) (hs : StOk sr q st) :
+    StOk sr q (st.sendFail p) := by
+  cases st with
+  | lookup => trivial
+  | tracker b t =>
+    obtain ⟨h1, h2, h3, h4, h5⟩ := hs
+    simp only [QState.sendFail, Tracker.sendFailure]
+    split
+    · refine ⟨h1, h2, h3, ?_, h5⟩
+      intro p' hp' hc
+      exact h4 p' hp' (List.mem_filter.mp hc).1
+    · exact ⟨h1, h2, h3, h4, h5⟩
+
+theorem StOk.sendOk {sr : SendLog} {q : Qid} {st : QState} (p : Peer) (hs : StOk sr q st)
+    (hw : ∃ k, (q, p, k) ∈ sr) : StOk sr q (st.sendOk p) := by
+  cases st with
+  | lookup => trivial
+  | tracker b t =>
+    obtain ⟨h1, h2, h3, h4, h5⟩ := hs
+    simp only [QState.sendOk, Tracker.sendSuccess]
+    split
+    · rename_i hp
+      refine ⟨by simp [h1], h2, ?_, ?_, ?_⟩
+      · exact List.nodup_cons.mpr ⟨fun hc => h4 p hc hp, h3⟩
+      · intro p' hp' hc
+        have hf := List.mem_filter.mp hc
+        rcases List.mem_cons.mp hp' with rfl | hp'
+        · simp at hf
+        · exact h4 p' hp' hf.1
+      · intro p' hp'
+        rcases List.mem_cons.mp hp' with rfl | hp'
+        · exact hw
+        · exact h5 p' hp'
+    · exact ⟨h1, h2, h3, h4, h5⟩
+
+theorem EngOk.updQ {sr : SendLog} {e : Engine} (h : EngOk sr e) (q : Qid) (f : QState → QState)
+    (hf : ∀ st, StOk sr q st → StOk sr q (f st)) : EngOk sr (updQ e q f) := by
+  intro x' hx'
+  obtain ⟨x, hx, hid, _, hst⟩ := mem_updQ hx'
+  rcases hst with ⟨_, hst⟩ | ⟨hq, hst⟩
+  · rw [hid, hst]; exact h x hx
+  · rw [hid, hst, hq]; exact hf _ (hq ▸ h x hx)
+
+theorem EngOk.shrinks {sr : SendLog} {e e' : Engine} (hs : Shrinks e e') (h : EngOk sr e) : EngOk sr e' := by
+  induction hs with
+  | refl => exact h
+  | respDone q p _ ih => exact ih.updQ q _ (fun _ => StOk.respDone p)
+  | sendFail q p _ ih => exact ih.updQ q _ (fun _ => StOk.sendFail p)
+
+theorem EngOk.mono {sr sr' : SendLog} (hm : ∀ x ∈ sr, x ∈ sr') {e : Engine} (h : EngOk sr e) : EngOk sr' e :=
+  fun x hx => (h x hx).mono hm
+
+theorem LogOk.mono {sr sr' : SendLog} (hm : ∀ x ∈ sr, x ∈ sr') {l : List SuccessRec} (h : LogOk sr l) : LogOk sr' l :=
+  fun r hr => ⟨(h r hr).1, (h r hr).2.1, fun p hp => let ⟨k, hk⟩ := (h r hr).2.2 p hp; ⟨k, hm _ hk⟩⟩
+
+theorem QuorumInv.of_shrinks {s s' : State} (h : QuorumInv s) (hs : SameLedger s s')
+    (he : Shrinks s.engine s'.engine) : QuorumInv s' :=
+  ⟨by rw [hs.sendResults]; exact h.eng.shrinks he, by rw [hs.sendResults, hs.successLog]; exact h.log⟩
+
+theorem EngOk.removeQ {sr : SendLog} {e : Engine} (h : EngOk sr e) (q : Qid) : EngOk sr (removeQ e q) :=
+  fun x hx => h x (List.mem_filter.mp hx).1
+
+theorem EngOk.append_lookup {sr : SendLog} {e : Engine} (h : EngOk sr e) (q key kind quorum ps) :
+    EngOk sr (e ++ [⟨q, key, .lookup kind quorum ps⟩]) := by
+  intro x hx
+  rcases List.mem_append.mp hx with hx | hx
+  · exact h x hx
+  · simp at hx; subst hx; trivial
+
+theorem QuorumInv.command {s : State} (h : QuorumInv s) (c : Cmd) : QuorumInv (command s c) := by
+  cases c <;> simp only [Coordinator.command, Coordinator.startLookup]
+  · exact ⟨h.eng.append_lookup _ _ _ _ _, h.log⟩
+  · exact ⟨h.eng.append_lookup _ _ _ _ _, h.log⟩
+  · exact ⟨h.eng.append_lookup _ _ _ _ _, h.log⟩
+  · split
+    · exact ⟨h.eng, h.log⟩
+    · exact ⟨h.eng.append_lookup _ _ _ _ _, h.log⟩
+  · exact ⟨h.eng.append_lookup _ _ _ _ _, h.log⟩
+  · exact ⟨h.eng.append_lookup _ _ _ _ _, h.log⟩
+
+theorem QuorumInv.engineStep {s s' : State} (h : QuorumInv s) {act : EAct} {outs : List OsdIn}
+    (hstep : engineStep s act outs = some s') : QuorumInv s' := by
+  unfold Coordinator.engineStep at hstep
+  cases act with
+  | send q p =>
+    simp only at hstep
+    split at hstep
+    · rename_i kind quorum ps hf
+      split at hstep
+      · exact absurd hstep (by simp)
+      · injection hstep with hstep
+        subst hstep
+        have hs := sendMessage_same
+          { s with engine := updQ s.engine q (fun _ => QState.lookup kind quorum (ps ++ [p])) } q p
+          (outs.headD default) s ⟨rfl, rfl, rfl, rfl, rfl⟩
+        have he := sendMessage_shrinks
+          { s with engine := updQ s.engine q (fun _ => QState.lookup kind quorum (ps ++ [p])) } q p
+          (outs.headD default) _ (.refl _)
+        refine ⟨?_, ?_⟩
+        · rw [hs.sendResults]
+          exact (h.eng.updQ q (fun _ => QState.lookup kind quorum (ps ++ [p])) (fun _ _ => trivial)).shrinks he
+        · rw [hs.sendResults, hs.successLog]; exact h.log
+    · exact absurd hstep (by simp)
+  | lookupDone q ok peers =>
+    simp only at hstep
+    split at hstep
+    · rename_i key kind quorum ps hf
+      split at hstep
+      · split at hstep
+        · exact absurd hstep (by simp)
+        · injection hstep with hstep
+          subst hstep
+          exact ⟨h.eng.removeQ q, h.log⟩
+      · split at hstep
+        · injection hstep with hstep; subst hstep; exact ⟨h.eng.removeQ q, h.log⟩
+        · injection hstep with hstep; subst hstep; exact ⟨h.eng.removeQ q, h.log⟩
+        · injection hstep with hstep; subst hstep; exact ⟨h.eng.removeQ q, h.log⟩
+        · split at hstep
+          · exact absurd hstep (by simp)
+          · injection hstep with hstep
+            subst hstep
+            have hs := fanOut_same (if kind = .addProvider then .addProvider else .putValue) q
+              { s with engine := Coordinator.removeQ s.engine q } peers outs s ⟨rfl, rfl, rfl, rfl, rfl⟩
+            have he := fanOut_engine (if kind = .addProvider then .addProvider else .putValue) q
+              { s with engine := Coordinator.removeQ s.engine q } peers outs
+            refine ⟨?_, ?_⟩
+            · show EngOk _ (startTracking _ _ _ _ _ _).engine
+              unfold startTracking
+              simp only []
+              rw [hs.sendResults]
+              refine EngOk.shrinks (Shrinks.foldl _ (fun e p => Shrinks.sendFail q p (.refl e)) _ _) ?_
+              rw [he]
+              intro x hx
+              rcases List.mem_append.mp hx with hx | hx
+              · exact h.eng.removeQ q x hx
+              · simp at hx
+                subst hx
+                exact ⟨rfl, rfl, List.nodup_nil, fun _ hp => absurd hp (by simp [Tracker.new]),
+                  fun _ hp => absurd hp (by simp [Tracker.new])⟩
+            · show LogOk (startTracking _ _ _ _ _ _).sendResults (startTracking _ _ _ _ _ _).successLog
+              have := startTracking_same (fanOut (if kind = .addProvider then .addProvider else .putValue) q
+                { s with engine := Coordinator.removeQ s.engine q } peers outs) q key (kind != .addProvider) peers quorum s hs
+              rw [this.sendResults, this.successLog]
+              exact h.log
+    · exact absurd hstep (by simp)
+  | partialResult q =>
+    simp only at hstep
+    split at hstep
+    · injection hstep with hstep; subst hstep; exact h
+    · exact absurd hstep (by simp)
+  | trackerDone q =>
+    simp only at hstep
+    split at hstep
+    · rename_i key b t hf
+      have hx := findQ_mem hf
+      have ht : TrackerOk s.sendResults q t := by
+        have := h.eng _ hx.1
+        rw [hx.2] at this
+        exact this
+      split at hstep
+      · split at hstep
+        · rename_i hsucc
+          injection hstep with hstep
+          subst hstep
+          refine ⟨h.eng.removeQ q, ?_⟩
+          intro r hr
+          rcases List.mem_append.mp hr with hr | hr
+          · exact h.log r hr
+          · simp at hr
+            subst hr
+            obtain ⟨h1, h2, h3, _, h5⟩ := ht
+            refine ⟨?_, h3, h5⟩
+            simp only [Tracker.isSucceeded, decide_eq_true_eq] at hsucc
+            rw [← h2, h1]
+            exact hsucc
+        · injection hstep with hstep
+          subst hstep
+          exact ⟨h.eng.removeQ q, h.log⟩
+      · exact absurd hstep (by simp)
+    · exact absurd hstep (by simp)
+
+theorem QuorumInv.step {s s' : State} (h : QuorumInv s) {l : Label} (hstep : step s l = some s') : QuorumInv s' := by
+  cases l with
+  | cmd c => injection hstep with hstep; subst hstep; exact h.command c
+  | engine a outs => exact h.engineStep hstep
+  | established p outs =>
+    injection hstep with hstep; subst hstep
+    exact h.of_shrinks (established_same ..) (established_shrinks ..)
+  | closed p =>
+    injection hstep with hstep; subst hstep
+    exact h.of_shrinks (closed_same ..) (closed_shrinks ..)
+  | dialFailure p =>
+    injection hstep with hstep; subst hstep
+    exact h.of_shrinks (dialFailure_same ..) (dialFailure_shrinks ..)
+  | subOpened sid =>
+    injection hstep with hstep; subst hstep
+    exact h.of_shrinks (subOpened_same ..) (by rw [subOpened_engine]; exact .refl _)
+  | subOpenFailure sid =>
+    injection hstep with hstep; subst hstep
+    exact h.of_shrinks (subOpenFailure_same ..) (subOpenFailure_shrinks ..)
+  | result f r =>
+    injection hstep with hstep; subst hstep
+    have hs := execResult_same s f r
+    have hm := execResult_sendResults_mono s f r
+    rcases execResult_engine s f r with he | ⟨_, _, he, hsr⟩
+    · exact ⟨(h.eng.mono hm).shrinks he, by rw [hs.2.2.2]; exact h.log.mono hm⟩
+    · refine ⟨?_, by rw [hs.2.2.2]; exact h.log.mono hm⟩
+      refine EngOk.shrinks he ((h.eng.mono hm).updQ f.q _ (fun st hst => hst.sendOk f.peer ⟨f.kind, ?_⟩))
+      rw [hsr]; exact List.mem_cons_self
+
+theorem QuorumInv.reachable {s : State} (h : Reachable s) : QuorumInv s := by
+  induction h with
+  | init => exact ⟨fun _ hx => absurd hx (by simp), fun _ hr => absurd hr (by simp)⟩
   | step l _ hstep ih => exact ih.step hstep
 
 end Litep2pVerif.Kad.Coordinator
